@@ -136,6 +136,17 @@ def run_check(args):
                 rc, out = M.run_replay(path)
                 n_replayed += 1
                 status = out.get("status", "replay-crashed")
+                if status != "reproduced" and f.get("witness_raw"):
+                    # the float-friendly witness did not reproduce: try the solver's original model
+                    rp["witness_float_friendly"] = rp["witness"]
+                    rp["witness"] = f["witness_raw"]
+                    with open(path, "w") as fh:
+                        json.dump(rp, fh, indent=1, default=str)
+                    rc, out2 = M.run_replay(path)
+                    n_replayed += 1
+                    if out2.get("status") == "reproduced":
+                        out, status = out2, "reproduced"
+                        f = dict(f, witness=f["witness_raw"])
             rp["replay_result"] = out
             with open(path, "w") as fh:
                 json.dump(rp, fh, indent=1, default=str)
